@@ -30,9 +30,9 @@ func c10SuiteEd(rng *kc.Rng) (*big.Int, vssSuite, string) {
 }
 
 // fault behaviours of one faulty party (deal phase / response phase / justification phase)
-var c11DealFaults = []string{"none", "absent", "badShare", "misdirect", "wrongThreshold", "wrongSid", "dupBundle", "conflict", "badCommit", "unknownHolder", "badShareAll"}
+var c11DealFaults = []string{"none", "absent", "badShare", "misdirect", "wrongThreshold", "wrongSid", "dupBundle", "conflict", "badCommit", "unknownHolder", "badShareAll", "unknownHolderMid"}
 var c11RespFaults = []string{"none", "falseComplaint", "noResponse", "successStatus", "unknownDealer", "wrongSid", "dupBundle"}
-var c11JustFaults = []string{"none", "badJust", "noJust", "wrongSid", "dupBundle", "unknownHolder"}
+var c11JustFaults = []string{"none", "badJust", "noJust", "wrongSid", "dupBundle", "unknownHolder", "unsolicitedWrongSid", "unsolicitedBadShare"}
 
 type c11Fault struct{ deal, resp, just int }
 
@@ -220,6 +220,35 @@ func (r *c11Round) run() {
 			m.Public[k] = w.pointOf(addMod(lg, 1, w.q))
 		case "unknownHolder":
 			m.Deals = append(m.Deals, dkg.Deal{ShareIndex: 1000 + uint32(r.rng.Intn(5)), EncryptedShare: []byte{1, 2, 3}})
+		case "unknownHolderMid":
+			// a deal for an unknown holder in the MIDDLE of the list: receivers whose deal comes later never see it
+			// (Hash() sorts the deals by share index, so the index must fall into a gap of the new group's indices)
+			bogus := uint32(1000)
+			var idxs []uint32
+			for _, h := range g.new {
+				idxs = append(idxs, h.Index)
+			}
+			for _, x := range idxs[:len(idxs)-1] {
+				free := true
+				for _, y := range idxs {
+					if y == x+1 {
+						free = false
+					}
+				}
+				if free && r.rng.Intn(2) == 0 {
+					bogus = x + 1
+				}
+			}
+			k := len(m.Deals)
+			for i, dl := range m.Deals {
+				if dl.ShareIndex > bogus {
+					k = i
+					break
+				}
+			}
+			nd := append([]dkg.Deal{}, m.Deals[:k]...)
+			nd = append(nd, dkg.Deal{ShareIndex: bogus, EncryptedShare: []byte{1, 2, 3}})
+			m.Deals = append(nd, m.Deals[k:]...)
 		}
 		for _, x := range out {
 			x.Signature = r.sign(n, x)
@@ -378,6 +407,18 @@ func (r *c11Round) run() {
 		case "unknownHolder":
 			if len(out) > 0 {
 				out[0].Justifications = append(out[0].Justifications, dkg.Justification{ShareIndex: 2000, Share: w.suite.Scalar().One()})
+			}
+		case "unsolicitedWrongSid", "unsolicitedBadShare":
+			// a justification bundle nobody asked for (the dealer is a dealer of this round)
+			if n.field("canIssue").Bool() {
+				if len(out) == 0 {
+					out = append(out, &dkg.JustificationBundle{DealerIndex: n.oidx, SessionID: append([]byte{}, g.nonce...)})
+				}
+				if c11JustFaults[f.just] == "unsolicitedWrongSid" {
+					out[0].SessionID = append([]byte{out[0].SessionID[0] ^ 0x10}, out[0].SessionID[1:]...)
+				} else {
+					out[0].Justifications = append(out[0].Justifications, dkg.Justification{ShareIndex: g.new[0].Index, Share: w.suite.Scalar().One()})
+				}
 			}
 		}
 		for _, x := range out {
